@@ -296,6 +296,14 @@ def run_funcfl(case, ctx, rng):
   oracle.check_token(ctx, "funcfl_header", p["drho_tok"], R.F(drho), 0, rel=1e-15, where="drho")
   oracle.check_token(ctx, "funcfl_header", p["dr_tok"], R.F(dr), 0, rel=1e-15, where="dr")
   oracle.check_token(ctx, "funcfl_header", p["cutoff_tok"], R.F(dr * (nr - 1)), 0, rel=1e-15, where="cutoff = dr*(nr-1)")
+  # "the header declares the grid actually tabulated": a reader rebuilds the grid as i * (declared step), so the declared
+  # step has to reproduce the last tabulated point (and the last density point), not just agree to six decimals
+  for nm, tok, step, npts in (("dr", p["dr_tok"], dr, nr), ("drho", p["drho_tok"], drho, nrho)):
+    end_decl, end_true = float(tok) * (npts - 1), float(step) * (npts - 1)
+    ctx.count("funcfl_declared_grid_ends")
+    if abs(end_decl - end_true) > 1e-9 * max(1.0, abs(end_true)):
+      ctx.violation("funcfl_declared_grid", "header declares %s = %s: its grid ends at %.10g, the tabulated grid (step %.17g, %d points) at %.10g" % (
+        nm, tok, end_decl, float(step), npts, end_true), what="funcfl_declared_grid", mech="header_step_six_decimals" if len(tok.split(".")[-1]) == 6 and "e" not in tok.lower() else "grid")
   Z, mass, exact, a0, lat = spec.eam_expected_metadata(model, s)
   if p["Z"] != Z or p["lattice"] != lat:
     ctx.violation("funcfl_meta", "Z=%r lattice=%r expected %r %r" % (p["Z"], p["lattice"], Z, lat), what="funcfl_meta")
